@@ -16,19 +16,22 @@ Inductive c08_case :=
 | KSeq (c : c08_seq_case)        (* single-threaded genRequestID sequence from a set counter: must equal the model exactly *)
 | KMt (c : c08_mt_case)          (* concurrent batch: what the theorems conclude + reachability window *)
 | KWrap (c : c08_wrap_case)
-| KTrace (c : c08_mtrace_case * list Z * list (nat * Z) * list Z).  (* recorded call/packet/outcome trace, per connection: must be a good run of the product of pending-table machines;
+| KTrace (c : c08_mtrace_case * list Z * list (nat * Z) * list Z * (Z * list (Z * Z))).  (* recorded call/packet/outcome trace, per connection: must be a good run of the product of pending-table machines;
                                     and the request ids the peer received on the wire (every packet type: two-way, one-way, keep-alive): non-zero
                                     and pairwise distinct, and each keep-alive ping's id fresh against the calls outstanding when it was seen
                                     (position in the label list, id); and the readings of the id counter taken with every logged event (in reading order):
-                                    the counter only moves forward — a drawn id is never handed back (ReqId.ctrs_fwd) — a scenario is far shorter than 2^31-2 allocations (C08_id_nonzero, C08_id_window_distinct) *)
+                                    the counter only moves forward — a drawn id is never handed back (ReqId.ctrs_fwd); and the counter at the start with, for every call and ping, (id, counter reading
+                                    taken after the draw): every id is one the generator handed out in between (ReqId.id_in_window) — whatever per-call
+                                    options the caller put into its context — a scenario is far shorter than 2^31-2 allocations (C08_id_nonzero, C08_id_window_distinct) *)
 
 Definition c08_check (c : c08_case) : bool :=
   match c with
   | KSeq x => c08_seq_check (Z.of_N c_maxInt32) x
   | KMt x => c08_mt_check (Z.of_N c_maxInt32) x
   | KWrap x => c08_wrap_check (Z.of_N c_maxInt32) x
-  | KTrace (x, wire, pings, ctrs) =>
+  | KTrace (x, wire, pings, ctrs, (c0, regs)) =>
       let '(n, ls, _, _, _, _) := x in
       maccepts x && znodup wire && negb (zmem 0%Z wire) && forallb (mping_ok n ls) pings
       && ctrs_fwd (Z.of_N c_maxInt32) ctrs
+      && forallb (fun r => id_in_window c0 (fst r) (snd r)) regs
   end.
